@@ -217,6 +217,7 @@ func TestC20LndWatcher(t *testing.T) {
 			confs  uint32
 			tip    uint32
 			inBest bool
+			lag    uint32
 		}
 		var mu sync.Mutex
 		var calls []cb
@@ -225,7 +226,10 @@ func TestC20LndWatcher(t *testing.T) {
 			confs, tip := c.Depth(txid)
 			l.activity.Add(1)
 			mu.Lock()
-			calls = append(calls, cb{kind, txHex, err, confs, tip, confs > 0})
+			l.mu.Lock()
+			lag := l.infoLag
+			l.mu.Unlock()
+			calls = append(calls, cb{kind, txHex, err, confs, tip, confs > 0, lag})
 			mu.Unlock()
 		}
 		w.AddConfirmationCallback(func(swapId, txHex string, err error) error { record("confirmed", txHex, err); return nil })
@@ -371,6 +375,13 @@ func TestC20LndWatcher(t *testing.T) {
 				}
 				if !k.inBest || k.confs < 3 {
 					col.Violation(t, "C20/lnd/confirmed-without-depth", "%s: confirmation reported while the transaction has %d confirmations on the best chain (tip %d, need 3)", desc, k.confs, k.tip)
+					return
+				}
+				// the watcher must not hand a transaction to the payment path that is already half a csv deep
+				// (the taker's own checks are anchored at its start height and cannot see how early the
+				// maker got the transaction confirmed)
+				if k.confs >= 504+k.lag {
+					col.Violation(t, "C20/lnd/confirmed-beyond-safety-limit", "%s: confirmation reported for a transaction that is already %d blocks deep (limit 504, node view lags %d)", desc, k.confs, k.lag)
 					return
 				}
 				if k.tip >= start+504 {
